@@ -217,8 +217,8 @@ def run(tier, seed):
         f.writelines(blines[(seed % stepc)::stepc])
     cout = vlib.replay("diffcli", cscen, timeout=120)
     vlib.absorb_replay(v, cout, "diffcli", cscen, crash_sig=lambda sc, t: "diff/cli/crash")
-    if not cout.classes.get("cli"):
-        raise vlib.Inconclusive("no pair went through the command line (vacuous)")
+    if not cout.classes.get("cli") or not cout.classes.get("cli-files"):
+        raise vlib.Inconclusive("no pair went through the command line / no pair as two CSV files (vacuous)")
     # (C)
     recfile = os.path.join(vlib.sub("scn"), "diff-rec.ndjson")
     nrec = TIERS[tier]["rec"]
@@ -239,7 +239,7 @@ def run(tier, seed):
     if sample is not None:
         samples.append(sample)
     cov = {
-        "command_line_pairs": {"run": cout.total, "through_wrgl_diff": cout.classes.get("cli", 0), "passed": cout.passed},
+        "command_line_pairs": {"run": cout.total, "through_wrgl_diff": cout.classes.get("cli", 0), "as_two_csv_files": cout.classes.get("cli-files", 0), "passed": cout.passed},
         "states": states, "transitions": generated,
         "traces_validated_against_impl": n_valid,
         "trace_events": n_events,
